@@ -311,6 +311,22 @@ def _rand_path(P, r, scale):
                 closed = False
         except Exception:
             pass
+    if r.random() < 0.12 and not closed and n >= 2:
+        # an outline that retraces its first edge: a LATER segment equal (by value) to the first one - e.g. a closed loop followed by
+        # its first edge again and a tail, or the whole outline drawn twice
+        try:
+            first = segs[0]
+            back = P.Line(segs[-1].end, first.start)
+            again = type(first)(*first.bpoints())
+            corner_ok = abs(back.unit_tangent(0) + segs[-1].unit_tangent(1)) > 0.2 and abs(again.unit_tangent(0) + back.unit_tangent(1)) > 0.2 and abs(back.end - back.start) > 1e-6 * scale
+            if corner_ok:
+                if r.random() < 0.5:
+                    tail = P.Line(again.end, again.end + cmath.rect(r.uniform(0.5, 2) * scale, cmath.phase(again.unit_tangent(1)) + r.choice([1, -1]) * r.uniform(0.4, 2.4)))
+                    segs = segs + [back, again, tail]
+                else:
+                    segs = segs + [back] + [type(x_)(*x_.bpoints()) for x_ in segs]
+        except Exception:
+            pass
     return P.Path(*segs), closed
 
 
